@@ -1,0 +1,67 @@
+//go:build verif
+
+// Contracts for govc (contract-based deductive verification); comment-only, compiled only with -tags verif.
+package bridgeservice
+
+// ---- the L1-info-index lookup of the claim flow (C12): the index returned for a bridge always belongs to an L1 info
+// leaf whose exit root covers that bridge (the exit-tree root it names was taken at a deposit count >= the bridge's);
+// otherwise an error is returned. Boundaries (assumed, A8): the syncers answer as rigid ghost functions.
+//   lerIndex(r)      deposit count (index of the last leaf) of the exit-tree root r as known to the bridge syncer
+//   infoMER(i)       mainnet exit root of L1 info leaf i;  infoRER(i) its rollup exit root
+//@ spec fn lerIndex(r Hash) int
+//@ spec fn infoMER(i int) Hash
+//@ spec fn infoRER(i int) Hash
+
+//@ interface github.com/agglayer/aggkit/bridgeservice.Bridger.GetRootByLER (self, ctx, ler)
+//@   modifies nothing
+//@   ensures result1 != nil ==> result0 == nil
+//@   ensures result1 == nil ==> result0 != nil && result0.Hash == ler && result0.Index == lerIndex(ler)
+
+//@ interface github.com/agglayer/aggkit/bridgeservice.L1InfoTreer.GetLastInfo (self)
+//@   modifies nothing
+//@   ensures result1 != nil ==> result0 == nil
+//@   ensures result1 == nil ==> result0 != nil && result0.MainnetExitRoot == infoMER(result0.L1InfoTreeIndex) && result0.RollupExitRoot == infoRER(result0.L1InfoTreeIndex)
+//@ interface github.com/agglayer/aggkit/bridgeservice.L1InfoTreer.GetFirstInfo (self)
+//@   modifies nothing
+//@   ensures result1 != nil ==> result0 == nil
+//@   ensures result1 == nil ==> result0 != nil && result0.MainnetExitRoot == infoMER(result0.L1InfoTreeIndex) && result0.RollupExitRoot == infoRER(result0.L1InfoTreeIndex)
+//@ interface github.com/agglayer/aggkit/bridgeservice.L1InfoTreer.GetFirstInfoAfterBlock (self, blockNum)
+//@   modifies nothing
+//@   ensures result1 != nil ==> result0 == nil
+//@   ensures result1 == nil ==> result0 != nil && result0.BlockNumber >= blockNum && result0.MainnetExitRoot == infoMER(result0.L1InfoTreeIndex) && result0.RollupExitRoot == infoRER(result0.L1InfoTreeIndex)
+//@ interface github.com/agglayer/aggkit/bridgeservice.L1InfoTreer.GetLastVerifiedBatches (self, rollupID)
+//@   modifies nothing
+//@   ensures result1 != nil ==> result0 == nil
+//@   ensures result1 == nil ==> result0 != nil && result0.RollupID == rollupID && isVerified(rollupID, result0.ExitRoot, result0.RollupExitRoot)
+//@ interface github.com/agglayer/aggkit/bridgeservice.L1InfoTreer.GetFirstVerifiedBatches (self, rollupID)
+//@   modifies nothing
+//@   ensures result1 != nil ==> result0 == nil
+//@   ensures result1 == nil ==> result0 != nil && result0.RollupID == rollupID && isVerified(rollupID, result0.ExitRoot, result0.RollupExitRoot)
+//@ interface github.com/agglayer/aggkit/bridgeservice.L1InfoTreer.GetFirstVerifiedBatchesAfterBlock (self, rollupID, blockNum)
+//@   modifies nothing
+//@   ensures result1 != nil ==> result0 == nil
+//@   ensures result1 == nil ==> result0 != nil && result0.RollupID == rollupID && isVerified(rollupID, result0.ExitRoot, result0.RollupExitRoot) && result0.BlockNumber >= blockNum
+//@ interface github.com/agglayer/aggkit/bridgeservice.L1InfoTreer.GetFirstL1InfoWithRollupExitRoot (self, rollupExitRoot)
+//@   modifies nothing
+//@   ensures result1 != nil ==> result0 == nil
+//@   ensures result1 == nil ==> result0 != nil && result0.RollupExitRoot == rollupExitRoot && infoRER(result0.L1InfoTreeIndex) == rollupExitRoot
+
+//@ func (b *BridgeService) getFirstL1InfoTreeIndexForL1Bridge
+//@   props C12
+//@   requires b != nil && b.l1InfoTree != nil && b.bridgeL1 != nil
+//@   modifies nothing
+//@   ensures[covering-or-error] result1 == nil ==> lerIndex(infoMER(result0)) >= depositCount
+//@   ensures[not-yet-covered-is-an-error] (result1 != nil) ==> result0 == 0
+//@   loop 0 invariant bestResult != nil && bestResult.MainnetExitRoot == infoMER(bestResult.L1InfoTreeIndex) && lerIndex(bestResult.MainnetExitRoot) >= depositCount
+
+// for an L2 bridge: a verified batch of this rollup whose local exit root covers it, and the first L1 info leaf carrying
+// that batch's rollup exit root; isVerified(rollup, ler, rer): a batch verification of that rollup announced local exit
+// root ler together with rollup exit root rer (rigid ghost predicate of the syncer's verify_batches table)
+//@ spec fn isVerified(rollup int, ler Hash, rer Hash) bool
+//@ func (b *BridgeService) getFirstL1InfoTreeIndexForL2Bridge
+//@   props C12
+//@   requires b != nil && b.l1InfoTree != nil && b.bridgeL2 != nil
+//@   modifies nothing
+//@   ensures[covering-or-error] result1 == nil ==> exists(l, Hash, lerIndex(l) >= depositCount && isVerified(b.networkID, l, infoRER(result0)))
+//@   ensures[not-yet-covered-is-an-error] (result1 != nil) ==> result0 == 0
+//@   loop 0 invariant bestResult != nil && lerIndex(bestResult.ExitRoot) >= depositCount && isVerified(b.networkID, bestResult.ExitRoot, bestResult.RollupExitRoot)
